@@ -48,6 +48,8 @@ C02Step(s, ev) ==
      ELSE LET want == Convert(Forest, ev.kind, Eval(pr.ast, Ctx(ev)))
               got == IF isErr THEN ErrV ELSE LoadVal(ev.res)
           IN IF want.t = "unm" THEN [ok |-> TRUE, st |-> s, drop |-> TRUE, msg |-> ""]
+             \* a call with the wrong number of arguments may be refused up front or only when it is evaluated (3.2 does not say)
+             ELSE IF isErr /\ HasBadCall(pr.ast) THEN [ok |-> TRUE, st |-> s, drop |-> FALSE, cont |-> TRUE, msg |-> ""]
              ELSE [ok |-> want = got /\ OrderOk(ev), st |-> s, drop |-> FALSE, cont |-> TRUE,
                    msg |-> (IF want # got THEN "want " \o ToString(want) \o " got " \o ToString(got)
                             ELSE IF ~OrderOk(ev) THEN "ORDER: delivered sequence is not in document order: " \o ToString(ev.res.v)
